@@ -241,8 +241,10 @@ def main():
         "wall_s": round(wall, 2),
         "violations": len(violations),
     }
-    os.makedirs(os.path.join(VERIF, "evidence"), exist_ok=True)
-    with open(os.path.join(VERIF, "evidence", "%s.json" % prop), "w") as f:
+    # evidence under /verif/evidence describes /repo only; runs against a scratch tree (VERIF_REPO) write elsewhere
+    evdir = os.path.join(VERIF, "evidence") if os.path.realpath(repo) == "/repo" else os.path.join(tempfile.gettempdir(), "verif_scratch_evidence")
+    os.makedirs(evdir, exist_ok=True)
+    with open(os.path.join(evdir, "%s.json" % prop), "w") as f:
         json.dump(ev, f, indent=1)
     print("%s: %d/%d obligations discharged, %d violations, %d known findings, %d undecided, %.1fs" % (prop, discharged, obligations, len(violations), len(known_hits), len(undecided), wall))
     return rc
